@@ -1,4 +1,4 @@
-import Aoe.Lemmas.HeapImport
+import Aoe.Lemmas.HeapDec
 /-!
 # C09 – scenarios do not leak into each other
 
@@ -16,7 +16,8 @@ the copy-on-foreign behaviour (F6, not proposed as a repair).
 
 Theorems: `disjoint_of_inv`, `inv_step`, `inv_run` / `disjoint_run` (all interleavings), `inv_run_repaired`,
 `save_touches_only_own`, `save_frame_step`, `save_frame_run`, `import_returns_held`,
-`import_returns_held_pinned_nonempty`, `import_links`, `import_link_internal`, `import_link_external`;
+`import_returns_held_pinned_nonempty`, `import_returned_owned`, `import_links`, `import_link_internal`,
+`import_link_external`, `import_link_other`, `safeRun_of_check` (safe histories by evaluation);
 counterexamples on the pinned model: `import_returns_held_counter` (F5), `*_foreign_counter` (F6, six entry
 points), `nested_owner_counter`, `nested_owner_leak_counter` (F15).
 Outside the model (covered by the harness only): process-global dataset dicts and class-level state.
@@ -358,6 +359,40 @@ example : ∀ op ∈ demoOps, CopyFirst op := by decide
 (`manager.triggers = [foreign, …]` copies everything) -/
 example : Safe pinned (addTrigger (initWorld 2) 1 5).1 (.adopt 2 .assign [0] false) :=
   Or.inr (Or.inr ⟨[0], rfl, ⟨0, [], _, rfl, rfl, by decide⟩⟩)
+
+/-- evaluate a history, checking `Safe` before every step -/
+def checkSafeRun (cfg : Cfg) : World → List Op → Bool
+  | _, [] => true
+  | w, op :: ops =>
+    decide (Safe cfg w op) &&
+      (match step cfg w op with
+       | .ok (w1, _) => checkSafeRun cfg w1 ops
+       | .error _ => false)
+
+theorem safeRun_of_check (cfg : Cfg) : ∀ (ops : List Op) (w : World), checkSafeRun cfg w ops = true → ∃ w', SafeRun cfg w ops w'
+  | [], w, _ => ⟨w, SafeRun.nil w⟩
+  | op :: ops, w, h => by
+    simp only [checkSafeRun, Bool.and_eq_true, decide_eq_true_eq] at h
+    obtain ⟨hs, hr⟩ := h
+    split at hr
+    · rename_i w1 r he
+      obtain ⟨w', hw'⟩ := safeRun_of_check cfg ops w1 hr
+      exact ⟨w', SafeRun.cons hs he hw'⟩
+    · exact absurd hr (by simp)
+
+/-- a **safe history of the pinned code** (so `inv_run pinned` is not vacuous): links, an import into a non-empty
+manager, a component on a native trigger, the setter with a foreign first entry (copies), an own trigger appended
+again, a removal and saves of both scenarios -/
+example : ∃ w', SafeRun pinned (initWorld 2)
+    [.addTrigger 1 1, .addComp 1 0 .act 0 5, .addTrigger 2 2, .importT 2 [0], .addComp 2 0 .eff (-1) 3,
+     .adopt 1 .assign [1, 2] false, .adopt 2 .append [1] false, .remove 2 0, .save 2, .save 1] w' :=
+  safeRun_of_check pinned _ _ (by decide)
+
+/-- … and the unsafe inputs are exactly what `Safe` rejects there -/
+example : checkSafeRun pinned (initWorld 2) [.addTrigger 1 1, .addTrigger 2 2, .adopt 2 .append [0] false] = false ∧
+    checkSafeRun pinned (initWorld 2) [.addTrigger 1 1, .addTrigger 2 2, .importT 2 [0], .addComp 2 1 .eff (-1) 3] = false ∧
+    checkSafeRun repaired (initWorld 2) [.addTrigger 1 1, .addTrigger 2 2, .importT 2 [0], .addComp 2 1 .eff (-1) 3] = true := by
+  decide
 
 /-- a quiet history for scenario 2 (activity on scenario 1 only, including an import *from* 2 and a save of 1):
 scenario 2 saves the same before and after, as `save_frame_run` says -/
